@@ -189,7 +189,12 @@ pub fn nested_adjacent() -> Vec<(Opts, Vec<&'static str>, usize)> {
     let v = P::Switch(Names::short('v'));
     let cmd_group = P::Cmd { name: "cmd".into(), shorts: vec![], longs: vec![], inner: Box::new(Opts::new(P::Seq(vec![point1.clone().many()]))), adjacent: true, help: None };
     let cmd_group2 = P::Cmd { name: "cmd".into(), shorts: vec![], longs: vec![], inner: Box::new(Opts::new(P::Seq(vec![P::Switch(Names::short('x')), point1.clone().opt()]))), adjacent: true, help: None };
+    let any_tag = P::Adj(vec![P::AnyKv { metavar: "--tag=NAME".into(), help: None, dash: true }, pos("FILE")]).many();
+    let any_kv = P::Adj(vec![P::AnyKv { metavar: "KEY=VAL".into(), help: None, dash: false }, pos("FILE")]).many();
     vec![
+        (Opts::new(P::Seq(vec![any_tag.clone()])), vec!["--tag=a", "-Tb", "x", "--tag", "-z"], 5),
+        (Opts::new(P::Seq(vec![P::Switch(Names::short('v')), any_tag])), vec!["--tag=a", "x", "-v", "--"], 5),
+        (Opts::new(P::Seq(vec![any_kv])), vec!["k=v", "x", "=", "-z"], 5),
         (Opts::new(P::Seq(vec![rect_many.clone()])), vec!["--rect", "--point", "1", "-z"], 8),
         (Opts::new(P::Seq(vec![v.clone(), rect_many])), vec!["--rect", "--point", "1", "-v"], 8),
         (Opts::new(P::Seq(vec![v.clone(), rect_opt])), vec!["--rect", "--point", "1", "-v", "-w"], 6),
